@@ -19,12 +19,15 @@ func parseLoadFile94(reader io.Reader, coresize Address) (WarriorData, error) {
 
 	lineNum := 0
 	breader := bufio.NewReader(reader)
-	for {
-		// empty lines and last lines without newlines seem to be missed
-		// should something else be used? or are these not worth handling?
+	atEOF := false
+	for !atEOF {
 		raw_line, err := breader.ReadString('\n')
 		if err != nil {
-			break
+			// the last line may end without a newline
+			if len(raw_line) == 0 {
+				break
+			}
+			atEOF = true
 		}
 		lineNum++
 
@@ -40,7 +43,7 @@ func parseLoadFile94(reader io.Reader, coresize Address) (WarriorData, error) {
 				data.Name = strings.TrimSpace(raw_line[5:])
 			} else if strings.HasPrefix(lower, ";author") {
 				data.Author = strings.TrimSpace(raw_line[7:])
-			} else if strings.HasPrefix(lower, ";strategy") {
+			} else if strings.HasPrefix(lower, ";strategy") && len(raw_line) > 10 {
 				data.Strategy += raw_line[10:]
 			}
 			continue
@@ -275,12 +278,15 @@ func parseLoadFile88(reader io.Reader, coresize Address) (WarriorData, error) {
 
 	lineNum := 0
 	breader := bufio.NewReader(reader)
-	for {
-		// empty lines and last lines without newlines seem to be missed
-		// should something else be used? or are these not worth handling?
+	atEOF := false
+	for !atEOF {
 		raw_line, err := breader.ReadString('\n')
 		if err != nil {
-			break
+			// the last line may end without a newline
+			if len(raw_line) == 0 {
+				break
+			}
+			atEOF = true
 		}
 		lineNum++
 
@@ -296,7 +302,7 @@ func parseLoadFile88(reader io.Reader, coresize Address) (WarriorData, error) {
 				data.Name = strings.TrimSpace(raw_line[5:])
 			} else if strings.HasPrefix(lower, ";author") {
 				data.Author = strings.TrimSpace(raw_line[7:])
-			} else if strings.HasPrefix(lower, ";strategy") {
+			} else if strings.HasPrefix(lower, ";strategy") && len(raw_line) > 10 {
 				data.Strategy += raw_line[10:]
 			}
 			continue
